@@ -1,14 +1,23 @@
 /*
- * Stubs used by the HTTP obligations (C13 / C20).
+ * Stubs used by the HTTP obligations (C13 / C20).  They REPLACE libc bodies; every job
+ * that includes this file lists them under "assumptions".
  *
- * (1) Assumed contracts of memmove/memset for the UNBOUNDED route: CBMC's built-in models
- *     copy symbolic-length slices of symbolic-size objects, which exhausts memory; the
- *     contract keeps exactly what memory safety needs: the call site must prove both
- *     spans accessible (requires is ASSERTED there), the destination slice is havocked.
- * (2) Executable reference bodies of memmem / strncasecmp for the BOUNDED route (plain
- *     harnesses, no contracts): CBMC ships no model of memmem; the bodies below follow
- *     the glibc manual ("first occurrence of needle in haystack", "compares ignoring case,
- *     at most n bytes, stops at NUL") and are listed as assumptions of every job using them.
+ * (1) UNBOUNDED route (default): abstract bodies of memchr / memmem / memcmp / strncasecmp /
+ *     memmove / memset.  Each body first ASSERTS that the spans handed to libc are
+ *     accessible (an out-of-span call in the code under verification is a failed
+ *     obligation named "<fn>: ... readable/writable"), then returns an arbitrary result
+ *     permitted by the C standard / glibc manual:
+ *       memchr   NULL or s+k, k < n, s[k] == c
+ *       memmem   NULL or h+k, k <= hn-nn, first and last needle byte match at k
+ *       memcmp, strncasecmp   any int
+ *       memmove, memset       destination slice havocked, returns dst
+ *     Results are built by pointer arithmetic on the argument (not as unconstrained
+ *     pointers), which keeps CBMC's points-to sets exact (measured: symex 34 s -> 1.5 s).
+ *     Nondeterminism comes only from nondet_* functions.  What is NOT assumed: that a NULL
+ *     result means "no occurrence" (over-approximation: sound for safety).
+ * (2) BOUNDED route (-DVF_HTTP_BOUNDED, plain harnesses over fixed arrays): executable
+ *     reference bodies of memmem / strncasecmp (CBMC ships no memmem model); memchr, memcmp,
+ *     memmove, memset are CBMC's own models there.
  */
 #ifndef VF_STUBS_HTTP_H
 #define VF_STUBS_HTTP_H
@@ -18,16 +27,71 @@
 #include "vf/vf.h"
 
 #ifndef VF_HTTP_BOUNDED
-void *memmove(void *dst, const void *src, size_t n)
-__CPROVER_requires(n == 0 || (__CPROVER_w_ok(dst, n) && __CPROVER_r_ok(src, n)))
-__CPROVER_assigns(n != 0: __CPROVER_object_whole(dst))
-__CPROVER_ensures(__CPROVER_return_value == dst)
-;
-void *memset(void *dst, int c, size_t n)
-__CPROVER_requires(n == 0 || __CPROVER_w_ok(dst, n))
-__CPROVER_assigns(n != 0: __CPROVER_object_whole(dst))
-__CPROVER_ensures(__CPROVER_return_value == dst)
-;
+void *
+memchr(const void *s, int c, size_t n) {
+	__CPROVER_assert(n == 0 || __CPROVER_r_ok(s, n), "memchr: span readable");
+	__CPROVER_assume(n == 0 || __CPROVER_r_ok(s, n));
+	if (n == 0 || nondet_bool())
+		return (NULL);
+	size_t k = nondet_size_t();
+	__CPROVER_assume(k < n);
+	__CPROVER_assume(((const unsigned char *)s)[k] == (unsigned char)c);
+	return ((void *)((const unsigned char *)s + k));
+}
+
+void *
+memmem(const void *h, size_t hn, const void *nd, size_t nn) {
+	__CPROVER_assert(hn == 0 || __CPROVER_r_ok(h, hn), "memmem: haystack readable");
+	__CPROVER_assert(nn == 0 || __CPROVER_r_ok(nd, nn), "memmem: needle readable");
+	__CPROVER_assume(hn == 0 || __CPROVER_r_ok(h, hn));
+	__CPROVER_assume(nn == 0 || __CPROVER_r_ok(nd, nn));
+	if (nn > hn || nondet_bool())
+		return (NULL);
+	size_t k = nondet_size_t();
+	__CPROVER_assume(k <= hn - nn);
+	if (nn != 0) {
+		__CPROVER_assume(((const unsigned char *)h)[k] == ((const unsigned char *)nd)[0]);
+		__CPROVER_assume(((const unsigned char *)h)[k + nn - 1] ==
+		    ((const unsigned char *)nd)[nn - 1]);
+	}
+	return ((void *)((const unsigned char *)h + k));
+}
+
+int
+memcmp(const void *a, const void *b, size_t n) {
+	__CPROVER_assert(n == 0 || (__CPROVER_r_ok(a, n) && __CPROVER_r_ok(b, n)),
+	    "memcmp: spans readable");
+	return (nondet_int());
+}
+
+/* reads at most n bytes of each string (stops at a NUL): requiring n readable bytes of
+ * both is the caller-side discipline of mem_cmpi(), which passes spans, not C strings */
+int
+strncasecmp(const char *a, const char *b, size_t n) {
+	__CPROVER_assert(n == 0 || (__CPROVER_r_ok(a, n) && __CPROVER_r_ok(b, n)),
+	    "strncasecmp: spans readable");
+	return (nondet_int());
+}
+
+void *
+memmove(void *dst, const void *src, size_t n) {
+	__CPROVER_assert(n == 0 || __CPROVER_r_ok(src, n), "memmove: source readable");
+	__CPROVER_assert(n == 0 || __CPROVER_w_ok(dst, n), "memmove: destination writable");
+	__CPROVER_assume(n == 0 || __CPROVER_w_ok(dst, n));
+	if (n != 0)
+		__CPROVER_havoc_slice(dst, n);
+	return (dst);
+}
+
+void *
+memset(void *dst, int c, size_t n) {
+	__CPROVER_assert(n == 0 || __CPROVER_w_ok(dst, n), "memset: destination writable");
+	__CPROVER_assume(n == 0 || __CPROVER_w_ok(dst, n));
+	if (n != 0)
+		__CPROVER_havoc_slice(dst, n);
+	return (dst);
+}
+
 #else /* VF_HTTP_BOUNDED: executable models, unwound completely */
 void *
 memmem(const void *h, size_t hn, const void *nd, size_t nn) {
